@@ -241,8 +241,7 @@ theorem rejected_changes_nothing {env : Env} {s : State} (h : Reachable env s) (
 /-- the tagged object at position `segs` of the loaded document `j`, indexed under `t`, can
     be expressed by a URL and reached by the traversal.  Every field but the two
     representation invariants excludes a proved counter-example or an inherent limit:
-    `segsOk` (a key that is "", "." or contains '/': `id_resolves_full_fails`),
-    `notRoot` (an `@id` on the top-level object is answered by a 301), `notDots` (a trailing
+    `segsOk` (a key that is "", "." or contains '/': `id_resolves_full_fails`), `notDots` (a trailing
     "..." is the append marker), `notNested` (array directly in an array), `idOk` (the id has
     to fit one URL path segment), `unambiguous` (two objects with the same id: Go's map order
     decides). -/
@@ -250,18 +249,22 @@ structure Addressable (j : Json) (segs : List Bytes) (t : Bytes) : Prop where
   uniq : uniqueKeys j = true
   short : shortArrays j = true
   segsOk : okSegs segs
-  notRoot : segs ≠ []
   notDots : segs.getLast? ≠ some dots
   notNested : nestedEnd (cfgKey :: segs) (.obj [(cfgKey, j)]) false = false
   idOk : okSeg t
   unambiguous : (taggedJ j).filter (fun e => e.2 = t) = [(segs, t)]
 
+/-- the expanded path of a tagged position: "/config/" for the top-level object (`segs = []`,
+    served there since /repo's fix, see `id_on_root_old_code_fails`), "/config/k1/…/kn" below -/
+def idPath (segs : List Bytes) : Bytes := if segs = [] then cfgPrefix else renderPath (cfgKey :: segs)
+
 /-- **@id resolves.** After any history, for every addressable tagged object of the running
-    configuration: `GET /id/<id>` is answered 200 with exactly that object — the value at its
-    position in the document, carrying that `@id` — and the ETag names its expanded path. -/
+    configuration — the top-level object included: `GET /id/<id>` is answered 200 with exactly
+    that object — the value at its position in the document, carrying that `@id` — and the
+    ETag names its expanded path. -/
 theorem id_resolves_partial {env : Env} {s : State} (h : Reachable env s) (hkey : hasCfgKey s.rawCfg = true)
     {j : Json} (hj : s.rawCfgJSON = some j) {segs : List Bytes} {t : Bytes} (ha : Addressable j segs t) :
-    ∃ kvs v, serve env (readReq (idPrefix ++ t)) s = (s, .okGet (some (.obj kvs)) (renderPath (cfgKey :: segs))) ∧
+    ∃ kvs v, serve env (readReq (idPrefix ++ t)) s = (s, .okGet (some (.obj kvs)) (idPath segs)) ∧
       sget segs j = some (.obj kvs) ∧ lookup idKey kvs = some v ∧ idText v = some t := by
   have hi := reachable_inv h
   -- the tree
@@ -294,37 +297,59 @@ theorem id_resolves_partial {env : Env} {s : State} (h : Reachable env s) (hkey 
   obtain ⟨kvs, v, hs1, hs2, hs3⟩ := taggedJ_entry j ha.uniq ha.short (segs, t) hmem
   refine ⟨kvs, v, ?_, hs1, hs2, hs3⟩
   -- the request
-  obtain ⟨s0, rest, hsegs⟩ : ∃ s0 rest, segs = s0 :: rest := by
-    cases hs : segs with
-    | nil => exact absurd hs ha.notRoot
-    | cons a b => exact ⟨a, b, rfl⟩
   have hrid : route (idPrefix ++ t) = .id := by
     have := route_render_id ha.idOk
     have hr : renderPath [idSeg, t] = idPrefix ++ t := by simp [renderPath, idPrefix]
     rw [hr] at this; exact this
-  have hrcfg : route (renderPath (cfgKey :: segs)) = .config := by
-    rw [hsegs] at hokc ⊢; exact route_render_config hokc
   have hto := handleConfigID_unique (idx := s.index) ha.idOk hcand hokc (by simp)
-  -- the read
-  have hparts : pathParts (renderPath (cfgKey :: segs)) = (cfgKey :: segs, false) := by
-    apply pathParts_render hokc (by simp)
-    rw [hsegs]; rw [hsegs] at ha
-    have := ha.notDots
-    simpa [List.getLast?_cons_cons] using this
-  have hget : access .get (renderPath (cfgKey :: segs)) .empty (.obj [(cfgKey, j)]) =
-      (.obj [(cfgKey, j)], .ok (some (.obj kvs))) := by
-    apply get_is_lookup_partial _ _ _ (trimSlash_render_ne hokc (by simp))
-    · show sget (pathParts (renderPath (cfgKey :: segs))).1 _ = _
-      rw [hparts]; simp only
-      rw [sget_obj_cons]; simp [lookup]; exact hs1
-    · refine ⟨?_, ?_⟩
-      · show (pathParts (renderPath (cfgKey :: segs))).1 ≠ []
-        rw [hparts]; simp
-      · show nestedEnd (pathParts (renderPath (cfgKey :: segs))).1 _ false = false
-        rw [hparts]; exact ha.notNested
-  unfold serve
-  simp only [readReq, hrid, hto, hrcfg]
-  rw [handleConfig_get _ _ _ _ rfl, hroot, hget]
+  cases hsegs : segs with
+  | nil =>
+    -- the top-level object: "/config" is rewritten to "/config/"
+    subst hsegs
+    have hj' : j = .obj kvs := by simpa [sget] using hs1
+    have hrcfg : route cfgPrefix = .config := by decide
+    have hget : access .get cfgPrefix .empty (.obj [(cfgKey, j)]) = (.obj [(cfgKey, j)], .ok (some (.obj kvs))) := by
+      have hp : pathParts cfgPrefix = ([cfgKey], false) := by decide
+      apply get_is_lookup_partial _ _ _ (by decide)
+      · show sget (pathParts cfgPrefix).1 _ = _
+        rw [hp]; simp [sget_obj_cons, lookup, sget, hj']
+      · refine ⟨?_, ?_⟩
+        · show (pathParts cfgPrefix).1 ≠ []
+          rw [hp]; simp
+        · show nestedEnd (pathParts cfgPrefix).1 _ false = false
+          rw [hp, nestedEnd_obj_cons]; simp [lookup, nestedEnd]
+    rw [rootSlash_root] at hto
+    unfold serve
+    simp only [readReq, hrid, hto, hrcfg, idPath, if_true]
+    rw [handleConfig_get _ _ _ _ rfl, hroot, hget]
+  | cons s0 rest =>
+    rw [hsegs] at hokc hto hs1 hfold
+    have hnd : (cfgKey :: s0 :: rest).getLast? ≠ some dots := by
+      have := ha.notDots
+      rw [hsegs] at this
+      simpa [List.getLast?_cons_cons] using this
+    have hnn : nestedEnd (cfgKey :: s0 :: rest) (.obj [(cfgKey, j)]) false = false := by
+      have := ha.notNested
+      rw [hsegs] at this; exact this
+    have hrcfg : route (renderPath (cfgKey :: s0 :: rest)) = .config := route_render_config hokc
+    have hparts : pathParts (renderPath (cfgKey :: s0 :: rest)) = (cfgKey :: s0 :: rest, false) :=
+      pathParts_render hokc (by simp) hnd
+    have hget : access .get (renderPath (cfgKey :: s0 :: rest)) .empty (.obj [(cfgKey, j)]) =
+        (.obj [(cfgKey, j)], .ok (some (.obj kvs))) := by
+      apply get_is_lookup_partial _ _ _ (trimSlash_render_ne hokc (by simp))
+      · show sget (pathParts (renderPath (cfgKey :: s0 :: rest))).1 _ = _
+        rw [hparts]; simp only
+        rw [sget_obj_cons]; simp [lookup]; exact hs1
+      · refine ⟨?_, ?_⟩
+        · show (pathParts (renderPath (cfgKey :: s0 :: rest))).1 ≠ []
+          rw [hparts]; simp
+        · show nestedEnd (pathParts (renderPath (cfgKey :: s0 :: rest))).1 _ false = false
+          rw [hparts]; exact hnn
+    rw [rootSlash_below] at hto
+    unfold serve
+    simp only [readReq, hrid, hto, hrcfg, idPath]
+    rw [handleConfig_get _ _ _ _ rfl, hroot, hget]
+    simp
 
 /-! ### `@id` never changes what the configuration means -/
 
@@ -465,7 +490,6 @@ example : Addressable exDoc [kApps, kC12] kX where
   uniq := by decide
   short := by decide
   segsOk := by unfold okSegs okSeg; decide
-  notRoot := by decide
   notDots := by decide
   notNested := by decide
   idOk := by unfold okSeg; decide
